@@ -112,3 +112,25 @@ Fixpoint lay (off : Z) (pieces : list (list Z)) : list (Z * Z) :=
 Inductive piece := PSeg (t : ctype) (m : hmode) (block : list Z) (rows : list row) | PRaw (bs : list Z).
 Definition piece_bytes (p : piece) : list Z :=
   match p with PSeg t m block rows => seg_enc_with t m block rows | PRaw bs => bs end.
+
+(* ---- file-level time ranges (MsBuilder.WriteData / writeToDisk, chunkdata_builder.go getMinMaxTime, trailer.go, tssp_file.go) ----
+   Times are signed 64-bit integers here (only compared, never wrapped). A range is (min, max). *)
+Definition rng := (Z * Z)%type.
+(* one segment of a time-sorted chunk: first and last row time *)
+Definition seg_range (ts : list Z) : rng := (hd 0 ts, last ts 0).
+(* ChunkMeta.MinMaxTime of a time-sorted chunk: min of the first segment, max of the last *)
+Definition chunk_range (segs : list rng) : rng := (fst (hd (0, 0) segs), snd (last segs (0, 0))).
+(* the trailer update of MsBuilder.WriteData and the meta-index update of writeToDisk, one step per chunk written:
+   state = (number of chunks so far, (minTime, maxTime)); the first chunk initialises the range, every chunk extends it
+   on either side *)
+Definition tr_step (st : Z * rng) (r : rng) : Z * rng :=
+  let '(cnt, (lo, hi)) := st in
+  let lo1 := if cnt =? 0 then fst r else lo in
+  let hi1 := if cnt =? 0 then snd r else hi in
+  (cnt + 1, ((if lo1 >? fst r then fst r else lo1), (if hi1 <? snd r then snd r else hi1))).
+Definition tr_fold (chunks : list rng) : Z * rng := fold_left tr_step chunks (0, (0, 0)).
+(* util.TimeRange.Overlaps: does the query range q meet [lo, hi]? Used by Trailer.ContainsTime (file.ContainsByTime,
+   ContainsValue) and by tsspFileReader.MetaIndex *)
+Definition overlaps (q : rng) (lo hi : Z) : bool := (fst q <=? hi) && (lo <=? snd q).
+(* a data file for this purpose: series -> segments -> row times *)
+Definition file_chunk_ranges (file : list (list (list Z))) : list rng := map (fun segs => chunk_range (map seg_range segs)) file.
